@@ -124,16 +124,16 @@ class CreateCheck:
         # R, trees
         if quick:
             shapes3 = ["D2", "D2n", "D3", "D3s", "D3o", "D3u", "D3n", "D3t",
-                       "D3d"]
+                       "D3d", "D3p", "D3b"]
             shapes4 = ["D4"]
             Ps = [16384, 32768]
         else:
             shapes3 = ["D2", "D2n", "D3", "D3s", "D3o", "D3u", "D3x", "D3n",
-                       "D3t", "D3d"]
+                       "D3t", "D3d", "D3p", "D3b"]
             shapes4 = ["D4", "D4n", "D5"]
             Ps = [16384, 32768, 65536]
         if pid in ("C02", "C03", "C10") and quick:
-            shapes3 = ["D2n", "D3", "D3o", "D3u", "D3n", "D3t", "D3d"]
+            shapes3 = ["D2n", "D3", "D3o", "D3u", "D3n", "D3t", "D3d", "D3p", "D3b"]
         for P in Ps:
             for sh in shapes3 + shapes4:
                 n = world.nfiles(sh)
@@ -160,7 +160,7 @@ class CreateCheck:
         for P in densePs:
             sizes = e1.dense_sizes(P, REAL_B)
             chunk = 24
-            for sh in ("S1", "D1"):
+            for sh in ("S1", "D1", "D1n"):
                 for i in range(0, len(sizes), chunk):
                     gs.append({"kind": "dense", "scale": "R", "B": REAL_B,
                                "P": P, "shape": sh,
